@@ -4,6 +4,7 @@ import (
 	"context"
 	"errors"
 	"fmt"
+	"github.com/prometheus/prometheus/storage"
 	"math"
 	"runtime"
 	"sort"
@@ -14,6 +15,7 @@ import (
 	"github.com/prometheus/prometheus/promql"
 	"github.com/prometheus/prometheus/promql/parser"
 
+	"github.com/thanos-community/promql-engine/api"
 	"github.com/thanos-community/promql-engine/engine"
 	"github.com/thanos-community/promql-engine/execution/parse"
 )
@@ -60,7 +62,18 @@ func (c19Prop) Check(c Case) Outcome {
 		o.Skipped = "unparsable"
 		return o
 	}
-	res := RunEngine(context.Background(), NewStore(c.Dataset, c.Store), c.Engine, c.Query, c.Window)
+	var res ExecOut
+	if c.NParts > 0 {
+		// a share of the cases goes through the distributed engine: its results are PromQL values too
+		var parts []storage.Queryable
+		for _, d := range partition(c) {
+			parts = append(parts, NewStore(d, c.Store))
+		}
+		res = RunDistributedOver(context.Background(), NewStore(c.Dataset, c.Store), parts, c.Engine, c.Query, c.Window, nil)
+		o.Count("distributed", 1)
+	} else {
+		res = RunEngine(context.Background(), NewStore(c.Dataset, c.Store), c.Engine, c.Query, c.Window)
+	}
 	if res.CreateErr {
 		o.Skipped = "not created: " + fmt.Sprint(res.Res.Err)
 		return o
@@ -108,7 +121,9 @@ func (c20Prop) Gen(seed uint64, tier string, i int) Case {
 	c.Dataset = GenDataset(r.Fork(), c.Window, 0, 10, false, false)
 	g := &GenCfg{Avoid: mergeAvoid(), MaxDepth: 3, W: c.Window}
 	pool := []string{`sum by (a) (m0)`, `m0`, `rate(m0[1m])`, `sort_desc(m0)`, `m0 + on(a) m1`, `topk(2, m0)`, `max_over_time(m0[2m:30s])`, `m0 and m1`,
-		`sum_over_time(m0[5m])`, `rate(m0[10m])`, `count_over_time(m0[30s])`, `sum by (a) (increase(m1[3m]))`}
+		`sum_over_time(m0[5m])`, `rate(m0[10m])`, `count_over_time(m0[30s])`, `sum by (a) (increase(m1[3m]))`,
+		// pinned parts (the pinned time lies inside the stored data, which keeps growing) and joins that build label sets
+		`m0 @ 3630`, `sum(m0 @ 3660) + count(m1)`, `m0 - on(a, b, c) m0 @ 3615`, `m0 > on(a) group_left(b) m1`, `m1 <= on(a) group_right(c) m0`}
 	for k := 0; k < 4; k++ {
 		pool = append(pool, GenQuery(r.Fork(), g))
 	}
@@ -715,6 +730,9 @@ func (c08Prop) Check(c Case) Outcome {
 		}
 		res := Canon(qry.Exec(ctx))
 		qry.Close()
+		if final := counterValues(reg); final["true"] != after["true"] || final["false"] != after["false"] {
+			o.Add("counter", fmt.Sprintf("the query counter moved again after creation (Exec/Close): fallback=true %v -> %v, fallback=false %v -> %v", after["true"], final["true"], after["false"], final["false"]))
+		}
 		if res.Err != nil && isUnsupportedErr(res.Err) {
 			o.Add("unsupported-at-exec", fmt.Sprintf("fallback enabled: Exec surfaces an unsupported/not-implemented error: %v", res.Err))
 			return o
@@ -740,6 +758,36 @@ func (c08Prop) Check(c Case) Outcome {
 		}
 	} else if dTrue+dFalse > 1 {
 		o.Add("counter", fmt.Sprintf("rejected query moved the counter by %v", dTrue+dFalse))
+	}
+	// A distributed engine with the fallback enabled over remote engines that have it disabled: an
+	// unsupported construct in a pushed-down part must still be recognised when the query is created
+	// (the remote engine rejects it then), and answered like the reference.
+	if err == nil && !known && len(o.Violations) == 0 && c.Index%5 == 0 {
+		strict := c.Engine
+		strict.Fallback = false
+		var remotes []api.RemoteEngine
+		for _, d := range splitDataset(c.Dataset, 2) {
+			remotes = append(remotes, engine.NewLocalEngine(engOpts(strict, nil), NewStore(d, StoreOpts{})))
+		}
+		de := engine.NewDistributedEngine(engOpts(cfgOn, nil), api.NewStaticEndpoints(remotes))
+		dq, derr := NewQuery(de, NewStore(c.Dataset, StoreOpts{}), cfgOn, c.Query, c.Window)
+		o.Count("distributed_strict_remote_cases", 1)
+		if derr != nil {
+			o.Add("distributed:acceptance-mismatch", fmt.Sprintf("distributed engine (fallback on, remotes strict): creation fails with %v, the reference accepts the query", derr))
+			return o
+		}
+		dres := Canon(dq.Exec(ctx))
+		dq.Close()
+		if dres.Err != nil && isUnsupportedErr(dres.Err) {
+			o.Add("distributed:unsupported-at-exec", fmt.Sprintf("distributed engine (fallback on, remotes strict): Exec surfaces an unsupported/not-implemented error: %v", dres.Err))
+			return o
+		}
+		if d := Compare(dres, ref.Res); d != nil {
+			var tmp Outcome
+			if Excuse(c, dres, ref.Res, d, &tmp) == "" {
+				o.Add("distributed:"+d.Rule, fmt.Sprintf("distributed engine (fallback on, remotes strict): %s\n  engine:    %s\n  reference: %s", d.Detail, dres, ref.Res))
+			}
+		}
 	}
 	return o
 }
